@@ -27,6 +27,7 @@ RULE = ("Generated: LP portfolios (contracts with spread / takes / time-varying 
         "<= min_k V_k. Non-trivial: scenarios differ and EV_k < V_SLP < mean V_s strictly for some k (SLP) / the "
         "robust solution differs in worst-case value from some single-scenario solution. Distinct = distinct spec hash.")
 RULE += (" The cost sample of every scenario (costs_only, what robust and stochastic problems are fed with) must equal the cost vector of the problem set up with the scenario's prices; storages with binary variables on grids of up to 5 steps.")
+RULE += (' Round 5: scaled assets, periodic storages, an asset without price whose cost per unit is a column of the uncertain data.')
 ASSUMPTIONS = ["only Results.x and Results.value of the SLP are used (with several rows per variable make_slp renumbers the mapping by "
                "rows and extract_output fails - observation D19 outside the listed properties)",
                "scipy-HiGHS solves the per-scenario problems; tolerances 4e-5*(1+|V|)"]
